@@ -41,6 +41,15 @@ def run(ctx):
     cases += numeric.gen_scalar(rng.fork("n"), "quick", ["SMA", "WMA", "EMA", "StDev", "MeanAbsDev", "CCI", "LinReg", "Vidya", "SWMA"])
     cases += [c for c in glue.gen_serde_each(rng.fork("g"), "quick")]
     cases += glue.gen(rng.fork("g2"), "quick", ["history", "peek", "clone"], names=["SMM", "MedianAbsDev", "Past", "SMA", "Highest"])
+    # the methods with their own buffers / weights (Conv, VWMA, ADI, TSI): next and peek (a feature-only fast path in an accessor
+    # shows only in a bit-exact comparison of the two builds)
+    from ..suites.action import Simple
+    for c in numeric.gen_other(rng.fork("o"), "quick", ["VWMA", "Conv", "ADI", "TSI"]):
+        cases.append(c)
+        toks = c.line().split(" ")
+        if toks[0] == "method" and toks[1] in ("VWMA", "Conv", "ADI", "TSI") and not c.kind.startswith("ctor"):
+            cases.append(Simple(" ".join(toks[:2] + ["peek"] + toks[2:]), None, "peek-" + c.kind, extra={"entry": toks[1]}))
+    cases += glue.gen(rng.fork("g3"), "quick", ["peek"], names=["WMA", "EMA", "LinReg", "StDev", "SWMA", "TRIMA", "HMA", "Vidya", "RMA", "DEMA", "TEMA"])
     try:
         tabs = ind.tables()
     except Exception as e:
